@@ -117,3 +117,66 @@ func H_C18_root_halving() { c18halving(false, false) }
 // H_C18_root_halving_newton: with a Newton trial from an arbitrary derivative.
 //vsym:prop=C18 tier=quick ints=int floats=real timeout=120
 func H_C18_root_halving_newton() { c18halving(false, true) }
+
+// c18noPrematureStop: FindRoot may stop before its iteration budget is used only because a trial
+// met the tolerance or because EVERY trial point of the current iteration (halving, secant and
+// Newton) lies within the convergence limit of the current best point.  Observed from outside with
+// budgets 1, 2 and 3 on the same arbitrary bracket, guess and function (sign change only): if the
+// budget-3 run evaluated nothing beyond the budget-2 run and its value is not below the tolerance,
+// it stopped in iteration 2, whose trial points (the evaluations after those of the budget-1 run)
+// must then all be within the convergence limit of the budget-1 result; likewise for a stop in
+// iteration 1 against the initial guess.  This is what "below the tolerance whenever the iteration
+// budget suffices for interval halving" needs besides the halving step: the budget is actually
+// used.
+func c18noPrematureStop(newton bool) {
+	min0, max0 := vsym.Float64("min"), vsym.Float64("max")
+	vsym.Assume(min0 < max0)
+	x0 := vsym.Float64("guess")
+	vsym.Assume(x0 >= min0 && x0 <= max0)
+	tol, conv := vsym.Float64("tolerance"), vsym.Float64("convergence")
+	vsym.Assume(tol > 0 && conv >= 0)
+	var evals []float64
+	f := func(x float64) float64 {
+		evals = append(evals, x)
+		return vsym.UF1("f", x)
+	}
+	var fdx func(float64) float64
+	if newton {
+		fdx = func(x float64) float64 { return vsym.UF1("dfdx", x) }
+	}
+	fmin, fmax := f(min0), f(max0)
+	vsym.Assume(fmin <= 0 && fmax >= 0)
+	vsym.Assume(fmax-fmin > 0)
+	evals = evals[:0]
+	x1, _ := FindRoot(f, fdx, x0, min0, max0, tol, conv, 1)
+	n1 := len(evals)
+	ev1 := append([]float64{}, evals...)
+	evals = evals[:0]
+	_, d2 := FindRoot(f, fdx, x0, min0, max0, tol, conv, 2)
+	n2 := len(evals)
+	ev2 := append([]float64{}, evals...)
+	evals = evals[:0]
+	_, d3 := FindRoot(f, fdx, x0, min0, max0, tol, conv, 3)
+	n3 := len(evals)
+	vsym.Reach("three-budgets-compared")
+	if n2 == n1 && math.Abs(d2) >= tol {
+		// stopped in iteration 1 (three evaluations precede the first trial)
+		for i := 3; i < n1; i++ {
+			vsym.Assert(math.Abs(x0-ev1[i]) < conv, "stop-before-budget-only-when-every-trial-is-within-the-convergence-limit")
+		}
+	}
+	if n3 == n2 && n2 > n1 && math.Abs(d3) >= tol {
+		vsym.Reach("stopped-in-second-iteration")
+		for i := n1; i < n2; i++ {
+			vsym.Assert(math.Abs(x1-ev2[i]) < conv, "stop-before-budget-only-when-every-trial-is-within-the-convergence-limit")
+		}
+	}
+}
+
+// H_C18_root_no_premature_stop: secant + halving trials (see c18noPrematureStop).
+//vsym:prop=C18 tier=quick ints=int floats=real timeout=120 maxruns=2000
+func H_C18_root_no_premature_stop() { c18noPrematureStop(false) }
+
+// H_C18_root_no_premature_stop_newton: with a Newton trial from an arbitrary derivative.
+//vsym:prop=C18 tier=thorough ints=int floats=real timeout=120 maxruns=40000 wall=3000
+func H_C18_root_no_premature_stop_newton() { c18noPrematureStop(true) }
